@@ -89,6 +89,8 @@ def evaluate(args):
             for o in scen['objs']:
                 if o['i'] == 0 or o['i'] not in {int(k) for k in pos}:
                     continue
+                if scen['prog'][o['i'] - 1][0] in ('lzone', 'lorgz', 'lorg'):
+                    continue        # two line objects (label, directive) share this source line: its listing rows are not compared
                 key = pos[o['i']]
                 row = rows.get(key)
                 if row is None:
